@@ -733,3 +733,34 @@ func leakSig(d *wagen.Driver, body []op) string {
 	}
 	return strings.Join(s, "+")
 }
+
+// DebugModes (developer aid) replays a driver history under every allocator
+// mode and prints each step's result and the monitors' verdicts.
+func DebugModes(seed, run uint64, tier string, rec []uint32) {
+	e := &Engine11{base: base{block: 96}}
+	e.Setup(tier)
+	e.SetRun(seed, run)
+	t := tape.NewReplay(rec)
+	if t.Draw(6) == 5 {
+		fmt.Println("not a driver history")
+		return
+	}
+	d, err := e.driver()
+	if err != nil {
+		fmt.Println(err)
+		return
+	}
+	max := 300
+	if tier == "thorough" {
+		max = 1500
+	}
+	ops := genOps(t, d.d, max)
+	os.WriteFile("/tmp/c11-driver.wa", []byte(d.d.Source), 0o644)
+	for m := allocsim.Plain; m < allocsim.NModes; m++ {
+		tr := execute(d, ops, m, tape.NewReplay(rec))
+		fmt.Printf("%-14s results=%v trap=%d %q mon=%d %s %q trouble=%q\n", allocsim.ModeNames[m], tr.results, tr.trapAt, tr.trapMsg, tr.monAt, tr.host.VClass, tr.host.Violation, tr.trouble)
+	}
+	for i, o := range ops {
+		fmt.Printf("  %2d op%d %s (a=%d b=%d c=%d)\n", i, o.op, d.d.OpDesc[o.op], o.a, o.b, o.c)
+	}
+}
